@@ -24,7 +24,11 @@ data all placeholders, merge of a stub set refused; (b) real files + stub-made p
 IH5MFRecord, dump equal to the dump after the direct update, same per-operation outcomes;
 (c) after every commit: sha256 / uuid of the manifest file vs. the user-block extension,
 manifest skeleton vs. IH5Skeleton.for_record(record), extensions = given or previous ones
-(also for the patch made through the stub).
+(also for the patch made through the stub); (d) after every *refused* operation (second
+commit, commit with unknown keyword / through a read-only handle, create_patch while pending,
+discard with nothing pending, create_stub onto an existing target / from a missing manifest):
+it was refused, no file changed, the manifest invariant still holds and the committed files
+reopen as IH5MFRecord.
 """
 from __future__ import annotations
 
@@ -169,6 +173,123 @@ def _try_merge(rec, target: Path) -> str:
         return f"refused-other:{type(e).__name__}:{e}"[:120]
 
 
+FAULTS_PENDING = ["create_patch", "commit_kw"]
+FAULTS_COMMITTED = ["double_commit", "commit_kw", "commit_ro", "discard", "stub_existing", "stub_missing_mf"]
+FAULTS_MODELLED = {"double_commit", "commit_kw", "commit_ro", "create_patch", "discard"}
+
+
+def _disk_snapshot(root: Path, skip: Optional[str]) -> Dict[str, str]:
+    """name -> sha256 of every file below the case directory (the writable container excluded:
+    h5py may flush it at any time)."""
+    snap = {}
+    for f in sorted(root.rglob("*")):
+        if f.is_file() and str(f) != skip:
+            snap[str(f.relative_to(root))] = hashlib.sha256(f.read_bytes()).hexdigest()
+    return snap
+
+
+def _invariant(rec) -> List[str]:
+    """The manifest invariant for the newest *committed* container of an open record: manifest
+    file uuid + sha256 vs. the user-block extension on disk, the handle's loaded manifest and
+    in-memory user block, and: the committed files reopen as IH5MFRecord and show the skeleton
+    the manifest holds."""
+    from metador_core.ih5.manifest import IH5MFRecord, IH5UBExtManifest
+    files = [str(p) for p in rec.ih5_files]
+    committed = files[:-1] if rec._has_writable else files
+    if not committed:
+        return []
+    bad = []
+    newest = committed[-1]
+    ub = _ub_of(newest)
+    mfp = Path(newest + "mf.json")
+    mf = None
+    if ub["ext"] is None:
+        bad.append("newest committed container has no manifest extension")
+    elif not mfp.is_file():
+        bad.append("manifest file of the newest committed container is missing")
+    else:
+        b = mfp.read_bytes()
+        mf = json.loads(b)
+        if "sha256:" + hashlib.sha256(b).hexdigest() != ub["ext"]["hash"]:
+            bad.append("sha256 of the manifest file differs from manifest_hashsum in the user block")
+        if str(mf["manifest_uuid"]) != ub["ext"]["id"]:
+            bad.append("uuid in the manifest file differs from manifest_uuid in the user block")
+        try:
+            if str(rec.manifest.manifest_uuid) != ub["ext"]["id"]:
+                bad.append("manifest loaded in the open handle is not the one named by the user block")
+        except Exception as e:  # noqa: BLE001
+            bad.append(f"open handle has no manifest: {type(e).__name__}")
+        mem = IH5UBExtManifest.get(rec.ih5_meta[len(committed) - 1])
+        if mem is None or str(mem.manifest_uuid) != ub["ext"]["id"] or str(mem.manifest_hashsum) != ub["ext"]["hash"]:
+            bad.append("in-memory user block of the open handle differs from the user block on disk")
+    try:
+        r = IH5MFRecord([Path(f) for f in committed], "r")
+        try:
+            if mf is not None:
+                rows, root = _skel_rows(_skel_of(r))
+                mrows, mroot = _skel_rows(mf["skeleton"])
+                if (rows, root) != (mrows, mroot):
+                    bad.append("skeleton in the manifest differs from IH5Skeleton.for_record of the reopened record")
+        finally:
+            r.close()
+    except vlib.CaseTimeout:
+        raise
+    except Exception as e:  # noqa: BLE001
+        bad.append(f"committed files do not reopen as IH5MFRecord: {type(e).__name__}: {e}"[:200])
+    return bad
+
+
+def _fault(rec, name: str, d: Path, tag: str) -> Dict[str, Any]:
+    """Issue one operation that must be refused; outcome + everything it damaged."""
+    from metador_core.ih5.manifest import IH5MFRecord
+    files = [str(p) for p in rec.ih5_files]
+    pending = rec._has_writable
+    skip = files[-1] if pending else None
+    before = _disk_snapshot(d, skip)
+    view_before = ih5lib.dump_view(rec)
+    flag = "T"
+    try:
+        with ih5lib.hard_time_limit(OP_TIMEOUT):
+            if name == "double_commit":
+                rec.commit_patch()
+            elif name == "commit_kw":
+                rec.commit_patch(no_such_option=1)
+            elif name == "commit_ro":
+                ro = IH5MFRecord([Path(f) for f in files], "r")
+                try:
+                    ro.commit_patch()
+                finally:
+                    ro.close()
+            elif name == "create_patch":
+                rec.create_patch()
+            elif name == "discard":
+                rec.discard_patch()
+            elif name == "stub_existing":
+                IH5MFRecord.create_stub(Path(files[0][:-len(".ih5")]), Path(files[-1] + "mf.json")).close()
+            elif name == "stub_missing_mf":
+                (d / f"nostub-{tag}").mkdir(exist_ok=True)
+                IH5MFRecord.create_stub(d / f"nostub-{tag}" / "rec", d / f"nostub-{tag}" / "absent.ih5mf.json").close()
+            else:
+                raise KeyError(name)
+    except vlib.CaseTimeout:
+        raise
+    except KeyError:
+        raise
+    except Exception:  # noqa: BLE001
+        flag = "F"
+    bad = []
+    after = _disk_snapshot(d, skip)
+    if after != before:
+        ch = sorted(k for k in set(before) | set(after) if before.get(k) != after.get(k))[:3]
+        bad.append(f"files on disk changed: {ch}")
+    if [str(p) for p in rec.ih5_files] != files or rec._has_writable != pending:
+        bad.append("the set of containers / the pending patch of the open handle changed")
+    elif ih5lib.dump_view(rec) != view_before:
+        bad.append("the view of the open handle changed")
+    bad += _invariant(rec)
+    return {"name": name, "flag": flag, "problems": bad}
+
+
 def exec_case(case) -> Dict[str, Any]:
     """Run one case on the real code; every observation the oracle and the tie need."""
     from metador_core.ih5.manifest import IH5MFRecord
@@ -182,14 +303,24 @@ def exec_case(case) -> Dict[str, Any]:
                 (d / "real").mkdir()
                 rec = IH5MFRecord(d / "real" / "rec", "w")
                 opened.append(rec)
+                faults = case.get("faults") or [[[], []] for _ in rounds]
+                out["faults"] = []
                 for i, (ops, given) in enumerate(rounds):
                     if i > 0:
                         rec.create_patch()
+                        inv = _invariant(rec)
+                        if inv:
+                            out["faults"].append({"round": i, "phase": "after create_patch", "name": "create_patch (accepted)",
+                                                  "flag": "F", "problems": inv})
                     res = _apply(rec, ops)
+                    for j, f in enumerate(faults[i][0]):
+                        out["faults"].append({"round": i, "phase": "pending", **_fault(rec, f, d, f"{i}p{j}")})
                     _commit(rec, given)
                     ob = _observe_commit(rec)
                     ob["results"] = res
                     out["rounds"].append(ob)
+                    for j, f in enumerate(faults[i][1]):
+                        out["faults"].append({"round": i, "phase": "committed", **_fault(rec, f, d, f"{i}c{j}")})
                 files = [str(p) for p in rec.ih5_files]
                 rec.close()
                 out["real_raw"] = [ih5lib.dump_raw(f) for f in files]
@@ -203,6 +334,8 @@ def exec_case(case) -> Dict[str, Any]:
                 so["nfiles"] = len(stub.ih5_files)
                 so["merge"] = _try_merge(stub, d / "m1" / "merged")
                 out["stub"] = so
+                for j, f in enumerate(case.get("stub_faults") or []):
+                    out["faults"].append({"round": "stub", "phase": "committed", **_fault(stub, f, d, f"s{j}")})
                 # ---- the update on the stub
                 stub.create_patch()
                 res = _apply(stub, upd[0])
@@ -291,9 +424,17 @@ def _commit_link_problems(ob, who: str) -> List[Tuple[str, str]]:
 
 def oracle(case, ob) -> List[Tuple[str, str]]:
     """All violations of the property's statement visible in the observations: (class, text)."""
-    if ob["st"] != "ok":
-        return []
     bad: List[Tuple[str, str]] = []
+    damaged = False
+    for f in ob.get("faults", []):
+        where = f"{f['name']} ({f['phase']}, commit {f['round']})"
+        if f["flag"] == "T":
+            bad.append(("not-refused", f"{where} was not refused"))
+        if f["problems"] and not damaged:      # later findings are consequences of the first damage
+            damaged = True
+            bad.append(("refused-op-damage", f"after the refused {where}: " + "; ".join(f["problems"])))
+    if ob["st"] != "ok":
+        return bad if ob["st"] == "error" else []
     prev_exts: Any = {}
     for i, (r, (ops, given)) in enumerate(zip(ob["rounds"], case["rounds"])):
         bad += _commit_link_problems(r, f"commit {i}")
@@ -384,7 +525,30 @@ def _flat(case):
 
 def _unflat(case, items):
     rounds = [[[op for (t, i, op) in items if t == "r" and i == k], g] for k, (_o, g) in enumerate(case["rounds"])]
-    return {"rounds": rounds, "upd": [[op for (t, _i, op) in items if t == "u"], case["upd"][1]]}
+    return {"rounds": rounds, "upd": [[op for (t, _i, op) in items if t == "u"], case["upd"][1]],
+            "faults": case.get("faults"), "stub_faults": case.get("stub_faults")}
+
+
+def _without_round(case, k):
+    fl = case.get("faults")
+    return {"rounds": case["rounds"][:k] + case["rounds"][k + 1:], "upd": case["upd"],
+            "faults": None if fl is None else fl[:k] + fl[k + 1:], "stub_faults": case.get("stub_faults")}
+
+
+def _fault_variants(case):
+    """The case with one refused operation less."""
+    fl = case.get("faults") or [[[], []] for _ in case["rounds"]]
+    for i, (p, c) in enumerate(fl):
+        for ph, lst in ((0, p), (1, c)):
+            for j in range(len(lst)):
+                cand = json.loads(json.dumps(case))
+                cand["faults"] = json.loads(json.dumps(fl))
+                del cand["faults"][i][ph][j]
+                yield cand
+    for j in range(len(case.get("stub_faults") or [])):
+        cand = json.loads(json.dumps(case))
+        del cand["stub_faults"][j]
+        yield cand
 
 
 def w_shrink(arg):
@@ -403,7 +567,7 @@ def w_shrink(arg):
     while changed and len(cur["rounds"]) > 1:
         changed = False
         for k in range(len(cur["rounds"]) - 1, -1, -1):
-            cand = {"rounds": cur["rounds"][:k] + cur["rounds"][k + 1:], "upd": cur["upd"]}
+            cand = _without_round(cur, k)
             if cand["rounds"] and fails(cand):
                 cur, changed = cand, True
                 break
@@ -414,6 +578,14 @@ def w_shrink(arg):
     items = _flat(cur)
     if len(items) == 1 and fails(_unflat(cur, [])):
         cur = _unflat(cur, [])
+    # drop refused operations one by one
+    changed = True
+    while changed:
+        changed = False
+        for cand in _fault_variants(cur):
+            if fails(cand):
+                cur, changed = cand, True
+                break
     # simplify extensions
     for k in range(len(cur["rounds"])):
         for e in (None, {"e": 1}):
@@ -461,8 +633,12 @@ def canon_case(case) -> Any:
 
     def cext(e):
         return None if e is None else ("{}" if e == {} else "E")
-    return {"rounds": [[[cop(o) for o in ops], cext(g)] for ops, g in case["rounds"]],
-            "upd": [[cop(o) for o in case["upd"][0]], cext(case["upd"][1])]}
+    out = {"rounds": [[[cop(o) for o in ops], cext(g)] for ops, g in case["rounds"]],
+           "upd": [[cop(o) for o in case["upd"][0]], cext(case["upd"][1])]}
+    if any(p or c for p, c in (case.get("faults") or [])) or case.get("stub_faults"):
+        out["faults"] = case.get("faults")
+        out["stub_faults"] = case.get("stub_faults") or []
+    return out
 
 
 # ---------------------------------------------------------------------------- generation
@@ -485,7 +661,13 @@ def gen_case(rng, quick: bool) -> Dict[str, Any]:
     ops = ih5lib.gen_history(rng, len(hist) + n, p_bnd=0.0, keys=keys, attr_keys=attr_keys, prefix=hist, values=VALUES,
                              allow_copy=False)
     upd = [[o for o in ops[len(hist):] if o[0] not in ("copy", "move", "bnd")], rng.choice(EXTS) if rng.random() < 0.25 else None]
-    return {"rounds": rounds, "upd": upd}
+    faults = []
+    for i in range(nrounds):
+        p = [rng.choice(FAULTS_PENDING)] if rng.random() < 0.3 else []
+        c = rng.sample(FAULTS_COMMITTED, rng.choice([0, 1, 1, 2]))
+        faults.append([p, c])
+    stub_faults = [rng.choice(["double_commit", "commit_kw", "commit_ro", "discard"])] if rng.random() < 0.4 else []
+    return {"rounds": rounds, "upd": upd, "faults": faults, "stub_faults": stub_faults}
 
 
 def fixed_cases() -> List[Dict[str, Any]]:
@@ -501,6 +683,11 @@ def fixed_cases() -> List[Dict[str, Any]]:
                        ["adel", ["a", "y"], "k"], ["set", ["a", "z"], "i:1"], ["del", ["nope"]]], None]})
     C.append({"rounds": [[[], {"e": 1}]], "upd": [[], None]})
     C.append({"rounds": [[[["grp", ["g"]]], None], [[], {"x": 1}], [[], None]], "upd": [[["del", ["g"]], ["set", ["g"], "i:1"]], {"y": 2}]})
+    # every refused operation, in every state it can be issued in
+    C.append({"rounds": [[[["set", ["a"], "i:1"]], {"e": 1}], [[["aset", [], "k", "i:2"]], None]],
+              "upd": [[["set", ["b"], "i:3"]], None],
+              "faults": [[list(FAULTS_PENDING), list(FAULTS_COMMITTED)], [list(FAULTS_PENDING), list(FAULTS_COMMITTED)]],
+              "stub_faults": ["double_commit", "commit_kw", "commit_ro", "discard"]})
     return C
 
 
@@ -512,6 +699,25 @@ def to_model(case) -> Any:
 
 
 # ---------------------------------------------------------------------------- model <-> impl
+
+def to_model_faults(case) -> Any:
+    fl = case.get("faults") or [[[], []] for _ in case["rounds"]]
+    return ["faults", [[ops, [] if g is None else [_exts_str(g)], p, c] for (ops, g), (p, c) in zip(case["rounds"], fl)]]
+
+
+def compare_faults(case, mf, ob) -> List[Dict[str, Any]]:
+    """Model: which of the issued operations take effect (none of them: all are refused)."""
+    if ob["st"] != "ok":
+        return []
+    fl = case.get("faults") or [[[], []] for _ in case["rounds"]]
+    want = []
+    for i, (p, c) in enumerate(fl):
+        for ph, names, flags in (("pending", p, mf[i][0]), ("committed", c, mf[i][1])):
+            want += [(i, ph, n, f) for n, f in zip(names, flags) if n in FAULTS_MODELLED]
+    got = [(f["round"], f["phase"], f["name"], f["flag"]) for f in ob.get("faults", [])
+           if f["round"] != "stub" and f["name"] in FAULTS_MODELLED]
+    return [] if want == got else [{"kind": "refused-ops", "model": want, "impl": got}]
+
 
 def _un(x):
     """of_opt wrapper: [] -> None, [y] -> y."""
@@ -655,6 +861,7 @@ def run(ctx: vlib.Ctx):
     rng = ctx.rng
     cases = fixed_cases() + [gen_case(rng, ctx.quick) for _ in range(ctx.budget(220, 3200))]
     model = vlib.run_model("c10", [to_model(c) for c in cases])
+    model_faults = vlib.run_model("c10", [to_model_faults(c) for c in cases])
     impl = vlib.pmap(w_exec, cases, chunksize=2)
 
     disagreements: List[Dict[str, Any]] = []
@@ -663,19 +870,28 @@ def run(ctx: vlib.Ctx):
     stats = {"commits": 0, "upd_ops": 0, "upd_ops_ok": 0, "stub_nodes": 0, "timeouts": 0, "errors": 0,
              "patch_index_differs_after_stub_patch": 0, "upd_with_exts": 0}
     kinds: Dict[str, int] = {}
+    refused_kinds: Dict[str, int] = {}
     for ci, (case, m, ob) in enumerate(zip(cases, model, impl)):
         if ob["st"] == "timeout":
             stats["timeouts"] += 1
             continue
         if ob["st"] != "ok":
             stats["errors"] += 1
-            disagreements.append({"kind": "impl-" + ob["st"], "case": ci, "what": ob.get("err"), "tb": ob.get("tb")})
+            found = oracle(case, ob)
+            for cls, text in found:
+                hits.append((ci, cls, text))
+            if not found:
+                disagreements.append({"kind": "impl-" + ob["st"], "case": ci, "what": ob.get("err"), "tb": ob.get("tb")})
             continue
         for cls, text in oracle(case, ob):
             hits.append((ci, cls, text))
-        for d in compare(case, m, ob):
+        for d in compare(case, m, ob) + compare_faults(case, model_faults[ci], ob):
             d["case"] = ci
             disagreements.append(d)
+        for f in ob.get("faults", []):
+            if not f["name"].endswith("(accepted)"):
+                stats["refused_ops"] = stats.get("refused_ops", 0) + 1
+                refused_kinds[f"{f['name']}/{f['phase']}"] = refused_kinds.get(f"{f['name']}/{f['phase']}", 0) + 1
         stats["commits"] += len(case["rounds"]) + 3
         stats["upd_ops"] += len(case["upd"][0])
         ok = sum(1 for r in ob["sp"]["results"] if r == "T")
@@ -750,9 +966,12 @@ def run(ctx: vlib.Ctx):
     cov["rule"] = ("fixed shapes + random cases: 1-4 commits of shadow-tree-biased operations (create/delete/attributes/copy/move and a "
                    "malformed stream) over a per-case key alphabet from printable ASCII, manifest extensions given at random commits; "
                    "then an existence-based update (create_group, create_dataset, delete, attribute set / delete, malformed ones) of 0-12 "
-                   "operations continuing the same shadow tree, with or without own extensions; non-trivial = distinct case with >= 2 real "
+                   "operations continuing the same shadow tree, with or without own extensions; operations that must be refused (second commit, "
+                   "commit with an unknown keyword / through a read-only handle, create_patch while a container is writable, discard "
+                   "with nothing pending, create_stub onto an existing target / from a missing manifest) issued before and after random "
+                   "commits and on the stub, the manifest invariant + reopen + unchanged files evaluated after each; non-trivial = distinct case with >= 2 real "
                    "containers, >= 2 skeleton entries and >= 1 successful update operation")
-    cov["input_distribution"] = {**stats, "cases": len(cases), "update_op_kinds": kinds,
+    cov["input_distribution"] = {**stats, "cases": len(cases), "update_op_kinds": kinds, "refused_op_kinds": refused_kinds,
                                  "rounds_hist": _hist(len(c["rounds"]) for c in cases)}
     cov["coq_crosscheck"] = xc
     cov["disagreements"] = len(disagreements)
@@ -804,7 +1023,7 @@ def replay(rep) -> int:
         return 1 if t else 0
     found = oracle(rep["case"], ob)
     same = [t for c, t in found if c == rep.get("class")]
-    if ob["st"] != "ok":
+    if ob["st"] != "ok" and not same:
         print("could not run the case:", ob.get("err") or ob["st"])
         return 1
     print("still failing:" if same else "no longer failing", same[:2] if same else "")
